@@ -212,6 +212,16 @@ def libfuzzer_candidates(ctx, seconds):
     return cases
 
 
+LOCAL_MACRO_PROGRAMS = [
+    ('C', 'void f(int a)\n{\n   switch (a)\n   {\n   case 1:\n   {\n#define CHECK(x) do { if (!(x)) { report(a); } break; } while (0)\n      CHECK(a);\n'
+          '#undef CHECK\n   }\n   break;\n   case 2:\n   {\n#define R2(x) { if (x) return; }\n      R2(a)\n   }\n   return;\n   default:\n      break;\n   }\n}\n'),
+    ('C', 'void g(int a)\n{\n   if (a)\n   {\n#define E(x) if (x) { a++; } else { a--; }\n      E(a);\n   }\n   else\n      a = 0;\n'
+          '   while (a)\n   {\n#define R(x) { if (x) return; }\n      R(a)\n      a--;\n   }\n   do\n   {\n#define W(x) while (x) { a--; }\n      W(a)\n   } while (a);\n}\n'),
+    ('CPP', 'struct S\n{\n   int a;\n#define F(n) struct { int n; } n ## _s\n   F(b);\n   void m()\n   {\n      for (;;)\n      {\n'
+            '#define B(x) if (x) { break; }\n         B(a)\n      }\n   }\n};\nnamespace N\n{\n#define NS(x) namespace x { }\nNS(q)\n}\n'),
+]
+
+
 def main(ctx):
     quick = ctx.tier == 'quick'
     _EX.update(family.exclusions(ctx))
@@ -287,6 +297,20 @@ def main(ctx):
                 for ci, cd in enumerate(({}, align_all)):
                     cases.append(family.Case(src.encode(), lang, dict(cd), {'kind': 'deep-nesting', 'depth': depth, 'shape': si, 'cfgkind': 'align-all' if ci else 'default'},
                                              {'quiet': False, 'profile': None}))
+    # (b5) block-local macros (a '#define' inside a case block / an if body / a loop body / a struct, whose body holds braces, 'break',
+    #      'else', 'return'): the passes that walk "to the matching brace" or "to the end of the statement" meet chunks of another
+    #      preprocessor scope there.  Every setting of every code-modifying and newline option, each alone.
+    nlm = 0
+    for o in reg_:
+        if not (o['name'].startswith('mod_') or o['name'].startswith('nl_')):
+            continue
+        vals = [v for v in (registry.values(o) if o['type'] != 'num' else ['1', '2']) if v != o['default']]
+        for v in vals:
+            for pi, (lang, src) in enumerate(LOCAL_MACRO_PROGRAMS):
+                cases.append(family.Case(src.encode(), lang, {o['name']: v}, {'kind': 'local-macro', 'shape': pi, 'cfgkind': 'single-option'},
+                                         {'quiet': False, 'profile': None}))
+                nlm += 1
+    ctx.extra['local_macro_cases'] = nlm
     # (b4) marker options given as regular expressions that the library refuses: a configuration error, never an abort
     for bad in ('(', '[a', '*x', 'a{2', '\\'):
         for optn in ('disable_processing_cmt', 'enable_processing_cmt'):
